@@ -3,6 +3,7 @@ package scen
 import (
 	"context"
 	"fmt"
+	"net"
 	"regexp"
 	"sort"
 	"strings"
@@ -23,8 +24,28 @@ import (
 // prepared BATCH entry can be checked against the statement the caller named (the first
 // bound text value is the operation's token). Faults: PREPARE answered with an error / never /
 // connection closed while it is outstanding; node restart (all ids forgotten, the next
-// PREPARE returns a new id) -> UNPREPARED on EXECUTE and BATCH; parks on the prepareStatement
-// and exec yield points.
+// PREPARE returns a new id) -> UNPREPARED on EXECUTE and BATCH; the caller's context is
+// cancelled; parks on the prepareStatement and exec yield points.
+//
+// Oracle clauses (signature C14/...):
+//   a  foreign-prepared-id, values-do-not-match-statement, executed-with-undelivered-id,
+//      statement-sent-unprepared: what arrives at a node carries an id this node issued for
+//      the statement the caller named under the connection's keyspace, with that
+//      statement's number and types of values, and the id has reached the driver before
+//   b  prepared-more-than-once: a second PREPARE of a (host, keyspace, statement) arrives
+//      while an earlier one is healthy (answered or still answerable, connection alive, not
+//      timed out in the driver) - only when the cache cannot evict (size >= keys of the run)
+//      and no restart / UNPREPARED touched the key since
+//   c  waiter-succeeded-after-failed-prepare, failed-prepare-cached (online: a caller that
+//      started when the driver had no PREPARE in flight reports a PREPARE failure that no
+//      PREPARE after its start produced; final phase: with faults off and every call
+//      returned, each key is executed once more and must not fail without any request
+//      reaching a node)
+//   d  unprepared-not-recovered: UNPREPARED never reaches the caller, and an id the node
+//      disowned is not re-sent more often than PREPARED answers carried it
+//   e  cache-exceeds-size at every quiescence
+//   f  wrong-arity-sent (+ :batch-entry-without-values)
+//   g  misrouted, wrong-queryinfo; unexpected-outcome, caller-never-returned, panic-in-caller
 
 func init() {
 	register(&Scenario{
@@ -33,7 +54,7 @@ func init() {
 		Run:        runPrep,
 		Real:       []string{"gocql Session/queryExecutor/pool/Conn.prepareStatement/executeQuery/executeBatch, preparedLRU + internal/lru, framer, marshalling of bound values (real code)", "Go runtime scheduler, channels, timers (fake clock)"},
 		Stub:       []string{"Cassandra nodes with their own prepared-statement tables (independent state machine + cqlspec codec)", "TCP (simnet)", "clock (testing/synctest)", "host selection: a trivial policy that sends each operation to the host the workload chose (random host ids make the stock policies' order irreproducible without a control connection)"},
-		Rule:       "one run = one seeded schedule of 2-6 callers x 2-4 operations (query / Bind query / batch of 1-3 entries / wrong-arity query or batch) over 1-3 statements, 1-2 nodes x 1-2 connections, protocol 3/4/5, session keyspace none/ks1/ks2, cache size 1000/1/2/3, with tape-chosen reply order and lateness, PREPARE failures (error, silence, connection loss), node restarts and yield-point parks; distinct = distinct canonical-log fingerprint; non-trivial = at least one PREPARE was shared by two callers, failed, or was repeated after UNPREPARED/eviction and at least one operation completed",
+		Rule:       "one run = one seeded schedule of 2-6 callers x 2-4 operations (query / Bind query / batch of 1-3 entries / wrong-arity query or batch) over 1-3 statements, 1-2 nodes x 1-2 connections, protocol 3/4/5, session keyspace none/ks1/ks2, cache size 1000/1/2/3, with tape-chosen reply order and lateness, PREPARE failures (error, silence, connection loss), node restarts, caller cancellations and yield-point parks; distinct = distinct canonical-log fingerprint; non-trivial = at least one PREPARE was shared by two callers, failed, or was repeated after UNPREPARED/eviction and at least one operation completed",
 	})
 }
 
@@ -119,6 +140,9 @@ type prepOp struct {
 	unprep   int            // UNPREPARED answers produced for it
 	success  bool           // a node produced a success answer for it
 	failedOn []*prepReq     // failed PREPAREs it was waiting on (see clause c)
+	cancel   context.CancelFunc
+	canceled bool
+	flights0 int // PREPAREs the driver had in flight on its host when it was invoked
 }
 
 func (op *prepOp) uses(host string, st *prepStmt) bool {
@@ -185,6 +209,10 @@ type prepReq struct {
 	timedOut   bool // the driver gave up waiting for its answer (exec.timedOut on its stream)
 }
 
+func (p *prepReq) wasDelivered() bool {
+	return p.delivered || (p.reply != nil && !p.reply.Dropped && p.reply.Sent >= len(p.reply.Frame))
+}
+
 // prepTimeout is one "request timed out" event seen through the driver's yield hook.
 type prepTimeout struct {
 	conn   string
@@ -219,12 +247,15 @@ type prepWorld struct {
 	preps    []*prepReq
 	fates    map[string][]int
 	restarts int
+	closes   int // connections closed by the simulator
 
 	maxRestarts int
 	allowClose  bool
+	allowCancel bool
 
 	finalPrepares int // PREPAREs received during the final phase
 	timeouts      []prepTimeout
+	flights       map[string]int // host -> PREPAREs the driver has in flight (published, not finished)
 }
 
 type prepHostCtxKey struct{}
@@ -275,6 +306,73 @@ func (p *prepPolicy) Pick(q gocql.ExecutableQuery) gocql.NextHost {
 	}
 }
 
+// prepDialer makes the order in which the session's first connections are accepted
+// reproducible: the session dials its hosts from goroutines started in map order (host ids
+// are random without a control connection), and the accept order fixes the order in which
+// the nodes process requests that arrive in the same step. Dial number i of host h (both
+// counted from 0) waits for its turn i*len(hosts)+h; once every initial connection exists
+// the wrapper passes dials through.
+type prepDialer struct {
+	inner interface {
+		DialContext(ctx context.Context, network, addr string) (net.Conn, error)
+	}
+	mu      sync.Mutex
+	hosts   []string
+	perHost map[string]int
+	turn    int
+	total   int
+	wake    chan struct{}
+}
+
+func (d *prepDialer) DialContext(ctx context.Context, network, addr string) (net.Conn, error) {
+	host, _, _ := net.SplitHostPort(addr)
+	d.mu.Lock()
+	hi := -1
+	for i, h := range d.hosts {
+		if h == host {
+			hi = i
+		}
+	}
+	ord := d.perHost[host]
+	d.perHost[host] = ord + 1
+	my := ord*len(d.hosts) + hi
+	d.mu.Unlock()
+	if hi < 0 || my >= d.total {
+		return d.inner.DialContext(ctx, network, addr)
+	}
+	for {
+		d.mu.Lock()
+		ok := d.turn >= my
+		ch := d.wake
+		d.mu.Unlock()
+		if ok {
+			break
+		}
+		select {
+		case <-ch:
+		case <-ctx.Done():
+			return nil, &net.OpError{Op: "dial", Net: network, Err: ctx.Err()}
+		}
+	}
+	c, err := d.inner.DialContext(ctx, network, addr)
+	d.mu.Lock()
+	if d.turn == my {
+		d.turn++
+	}
+	close(d.wake)
+	d.wake = make(chan struct{})
+	d.mu.Unlock()
+	return c, err
+}
+
+func prepHostOf(c *gocql.Conn) string {
+	name := ConnName(c)
+	if i := strings.IndexByte(name, '#'); i >= 0 {
+		return name[:i]
+	}
+	return name
+}
+
 func runPrep(e *Env) {
 	k := e.K
 	tp := k.Tape
@@ -301,6 +399,10 @@ func runPrep(e *Env) {
 		allowClose = tp.Chance(1, 2)
 		allowPrepFail = tp.Chance(2, 3)
 	}
+	allowCancel := !e.NoFaults && tp.Chance(1, 3)
+	coalesce := []time.Duration{0, 0, 200 * time.Microsecond}[tp.Next(3)]
+	e.Note("allowCancel", allowCancel)
+	e.Note("coalesce", coalesce.String())
 	e.Note("maxRestarts", maxRestarts)
 	e.Note("allowClose", allowClose)
 	e.Note("allowPrepFail", allowPrepFail)
@@ -318,10 +420,10 @@ func runPrep(e *Env) {
 	w := &prepWorld{
 		e: e, k: k, cl: cl,
 		proto: proto, ks: ks, timeout: timeout, maxPrepared: maxPrepared,
-		faultsOn: !e.NoFaults, maxRestarts: maxRestarts, allowClose: allowClose,
+		faultsOn: !e.NoFaults, maxRestarts: maxRestarts, allowClose: allowClose, allowCancel: allowCancel,
 		byText: map[string]*prepStmt{}, byName: map[string]*prepStmt{},
 		nodes: map[string]*prepNodeState{}, issued: map[string]*prepID{}, keys: map[string]*prepKey{},
-		entries: map[string]*prepEntry{}, fates: map[string][]int{},
+		entries: map[string]*prepEntry{}, fates: map[string][]int{}, flights: map[string]int{},
 	}
 	w.metaKS = ks
 	if w.metaKS == "" {
@@ -442,8 +544,10 @@ func runPrep(e *Env) {
 	cfg.Timeout = timeout
 	cfg.ConnectTimeout = 500 * time.Millisecond
 	cfg.ReconnectInterval = 500 * time.Millisecond
+	cfg.WriteCoalesceWaitTime = coalesce
 	cfg.Keyspace = ks
 	cfg.MaxPreparedStmts = maxPrepared
+	cfg.Dialer = &prepDialer{inner: cl.Net, hosts: addrs, perHost: map[string]int{}, total: nHosts * numConns, wake: make(chan struct{})}
 	pol := &prepPolicy{hosts: map[string]*gocql.HostInfo{}}
 	cfg.PoolConfig.HostSelectionPolicy = pol
 
@@ -451,12 +555,24 @@ func runPrep(e *Env) {
 	// the driver tells through its yield hook when a request gives up waiting for its answer
 	baseHook := gocql.VerifHook
 	gocql.VerifHook = func(point string, c *gocql.Conn, stream int) {
-		if point == "exec.timedOut" {
+		switch point {
+		case "exec.timedOut":
 			w.mu.Lock()
 			w.timeouts = append(w.timeouts, prepTimeout{conn: ConnName(c), stream: stream, step: k.Step()})
 			w.mu.Unlock()
+		case "prep.winner":
+			// a single-flight entry was just published for a statement on this host
+			w.mu.Lock()
+			w.flights[prepHostOf(c)]++
+			w.mu.Unlock()
 		}
 		baseHook(point, c, stream)
+		if point == "prep.beforeDone" {
+			// its PREPARE is over; the entry's done channel is closed right after this
+			w.mu.Lock()
+			w.flights[prepHostOf(c)]--
+			w.mu.Unlock()
+		}
 	}
 
 	sess, err := Boot(k, cl, 10*time.Second, func() (*gocql.Session, error) { return gocql.NewSession(*cfg) })
@@ -529,6 +645,27 @@ func runPrep(e *Env) {
 	k.SettleUntil(50*time.Millisecond, 5*time.Millisecond, serve, func() bool { return false })
 
 	// ---- final phase: one fault-free execution per key ----
+	// A caller whose context was cancelled returns while the PREPARE it started is still in
+	// flight; let every PREPARE that will never be answered run into the driver's timeout
+	// first, so that the final executions do not legitimately wait on (and fail with) one.
+	settleStart := time.Now()
+	k.SettleUntil(timeout+time.Second, 10*time.Millisecond, serve, func() bool {
+		w.mu.Lock()
+		defer w.mu.Unlock()
+		for _, p := range w.preps {
+			if p.wasDelivered() || p.timedOut || p.sc.Dead || p.sc.C.ClientClosed() || p.sc.C.ServerClosed() {
+				continue
+			}
+			from := p.arrive
+			if from.Before(settleStart) {
+				from = settleStart
+			}
+			if time.Since(from) < timeout+20*time.Millisecond {
+				return false
+			}
+		}
+		return true
+	})
 	if k.Violation() == nil {
 		w.finalPhase(sess, serve)
 	}
@@ -562,8 +699,11 @@ func runPrep(e *Env) {
 
 func (w *prepWorld) perform(sess *gocql.Session, op *prepOp) {
 	k := w.k
-	ctx := context.WithValue(context.Background(), prepHostCtxKey{}, op.host)
+	ctx, cancel := context.WithCancel(context.WithValue(context.Background(), prepHostCtxKey{}, op.host))
+	defer cancel()
 	w.mu.Lock()
+	op.cancel = cancel
+	op.flights0 = w.flights[op.host]
 	op.running = true
 	op.invoke = k.Step()
 	op.t0 = time.Now()
@@ -694,9 +834,18 @@ func (w *prepWorld) checkOutcome(op *prepOp) {
 			k.Violate("C14", "C14/misrouted", "caller of %s received the row %q", op.entries[0].tok, got)
 			return
 		}
-		// clause (c): it was waiting on a PREPARE that failed, and no later PREPARE of that
-		// key succeeded before it returned
+		// clause (c): it was waiting on a PREPARE that failed. If the node never forgot
+		// anything, the operation cannot have held an id of its own, so it was waiting on
+		// that very PREPARE and must have been told; otherwise (it may have been holding an
+		// id that went stale) it is only wrong if no later PREPARE of the key succeeded.
 		for _, p := range failedOn {
+			w.mu.Lock()
+			neverRestarted := w.nodes[p.key.host].gen == 1
+			w.mu.Unlock()
+			if neverRestarted {
+				k.Violate("C14", "C14/waiter-succeeded-after-failed-prepare", "operation %s (%s) was waiting on the PREPARE of %s that arrived at step %d (the only one of that key at the time; the node never restarted, nothing could be evicted) and failed at step %d, yet it returned success instead of that failure", op.id, op.describe(), p.key.name, p.arriveStep, p.failedStep)
+				return
+			}
 			if !w.laterGoodPrepare(p) {
 				k.Violate("C14", "C14/waiter-succeeded-after-failed-prepare", "operation %s (%s) was waiting on the PREPARE of %s that arrived at step %d and failed, no later PREPARE of that key succeeded, and yet it returned success", op.id, op.describe(), p.key.name, p.arriveStep)
 				return
@@ -708,7 +857,17 @@ func (w *prepWorld) checkOutcome(op *prepOp) {
 		return
 	}
 	switch {
-	case cls == "timeout", cls == "ctx-canceled", prepNetworkClass(cls):
+	case cls == "timeout", prepNetworkClass(cls):
+		return
+	case cls == "ctx-canceled":
+		// its own cancel, or the cancelled context of a connection that closed while the
+		// PREPARE it was waiting on was in flight on it
+		w.mu.Lock()
+		own, closes := op.canceled, w.closes
+		w.mu.Unlock()
+		if !own && closes == 0 {
+			k.Violate("C14", "C14/unexpected-outcome", "operation %s (%s) ended with context.Canceled although nobody cancelled it and no connection was closed", op.id, op.describe())
+		}
 		return
 	case strings.HasPrefix(cls, "server-error"):
 		msg := err.Error()
@@ -728,6 +887,21 @@ func (w *prepWorld) checkOutcome(op *prepOp) {
 			}
 			if !ok {
 				k.Violate("C14", "C14/misrouted", "operation %s (%s) received the PREPARE failure of another statement or host: %v", op.id, op.describe(), err)
+				return
+			}
+			// clause (c), online: when the operation was invoked the driver had no PREPARE in
+			// flight on that host, so the failure it reports must come from a PREPARE that
+			// reached the node after that
+			w.mu.Lock()
+			fresh := op.flights0 > 0
+			for _, p := range w.preps {
+				if p.fate == prepFateError && p.key.host == op.host && p.key.st.name == f[1] && p.arriveStep >= op.invoke {
+					fresh = true
+				}
+			}
+			w.mu.Unlock()
+			if !fresh {
+				k.Violate("C14", "C14/failed-prepare-cached", "operation %s (%s), invoked at step %d when the driver had no PREPARE in flight on %s, returned %q although no failing PREPARE of that statement reached the node after step %d: the failure of an earlier, finished PREPARE was served from the cache", op.id, op.describe(), op.invoke, op.host, msg, op.invoke)
 			}
 			return
 		}
@@ -758,7 +932,7 @@ func (w *prepWorld) laterGoodPrepare(p *prepReq) bool {
 	w.mu.Lock()
 	defer w.mu.Unlock()
 	for _, q := range w.preps {
-		if q.key == p.key && q != p && q.arriveStep >= p.arriveStep && q.delivered && !q.failed && q.fate <= prepFateAuto {
+		if q.key == p.key && q != p && q.arriveStep >= p.arriveStep && q.wasDelivered() && !q.timedOut && q.fate <= prepFateAuto {
 			return true
 		}
 	}
@@ -841,8 +1015,8 @@ func (w *prepWorld) onPrepare(sc *node.SConn, rec *node.ReqRec) {
 		for _, p1 := range key.window {
 			if reason := w.unhealthy(p1, now); reason == "" {
 				state := "still pending"
-				if p1.delivered {
-					state = fmt.Sprintf("answered PREPARED (id %s), delivered %v after arrival", p1.id, p1.deliverAt.Sub(p1.arrive))
+				if p1.wasDelivered() {
+					state = fmt.Sprintf("answered PREPARED with id %s, delivered, not timed out in the driver", p1.id)
 				}
 				k.Violate("C14", "C14/prepared-more-than-once", "conn %s: second PREPARE of %s at step %d although the PREPARE that arrived at step %d on %s is healthy (%s); cache size %d >= %d keys, no failure, restart or UNPREPARED touched the key in between",
 					sc.C.Name, key.name, p.arriveStep, p1.arriveStep, p1.sc.C.Name, state, w.maxPrepared, len(w.keyList))
@@ -940,7 +1114,7 @@ func (w *prepWorld) unhealthy(p *prepReq, now time.Time) string {
 		return "timed out in the driver"
 	case p.sc.Dead || p.sc.C.ClientClosed() || p.sc.C.ServerClosed():
 		return "connection lost"
-	case !p.delivered && now.Sub(p.arrive) >= w.timeout-slack:
+	case !p.wasDelivered() && now.Sub(p.arrive) >= w.timeout-slack:
 		return "may have timed out"
 	}
 	return ""
@@ -1064,7 +1238,7 @@ func (w *prepWorld) checkIDLocked(sc *node.SConn, what string, ks string, idb []
 	// the id must have reached the driver in a PREPARED answer before it can be used
 	seen := false
 	for _, p := range w.preps {
-		if p.id == id && p.reply != nil && (p.delivered || p.reply.Sent >= len(p.reply.Frame)) {
+		if p.id == id && p.wasDelivered() {
 			seen = true
 			break
 		}
@@ -1235,7 +1409,7 @@ func (w *prepWorld) scan(sess *gocql.Session) {
 		}
 		lost := p.sc.Dead || p.sc.C.ClientClosed() || p.sc.C.ServerClosed()
 		switch {
-		case p.reply != nil && !p.reply.Dropped && (p.delivered || p.reply.Sent >= len(p.reply.Frame)):
+		case p.wasDelivered():
 			if !p.delivered {
 				p.delivered = true
 				p.deliverAt = now
@@ -1244,10 +1418,15 @@ func (w *prepWorld) scan(sess *gocql.Session) {
 			if p.fate == prepFateError {
 				p.failed = true
 			}
-		case lost:
+		case lost, p.timedOut:
 			p.final, p.failed = true, true
 		case now.Sub(p.arrive) >= w.timeout+time.Millisecond:
-			p.final, p.failed = true, true
+			// too old to collect further waiters; whether the driver still accepts a late
+			// answer is for the timeout hook to say
+			p.final = true
+			if p.fate >= prepFateError {
+				p.failed = true
+			}
 		}
 		if !p.final {
 			// operations that can only be the winner or waiters of this PREPARE
@@ -1272,7 +1451,7 @@ func (w *prepWorld) scan(sess *gocql.Session) {
 			k.Probe("prepare-failed-with-waiters")
 		}
 		// clause (c): only when nothing else could have given those operations an id
-		if w.noEviction && p.exclusive && p.fate == prepFateError && !lost {
+		if w.noEviction && p.exclusive && p.fate >= prepFateError && !lost {
 			for op := range p.waiters {
 				if len(op.entries) == 1 {
 					op.failedOn = append(op.failedOn, p)
@@ -1318,6 +1497,22 @@ func (w *prepWorld) faultActions() []kernel.Action {
 			}})
 		}
 	}
+	if w.allowCancel {
+		for _, op := range w.ops {
+			if !op.running || op.canceled || op.cancel == nil {
+				continue
+			}
+			op := op
+			acts = append(acts, kernel.Action{Key: "cancel:" + op.id, Rank: 5, Weight: 1, Do: func() {
+				w.mu.Lock()
+				op.canceled = true
+				c := op.cancel
+				w.mu.Unlock()
+				k.Fault("client.cancel")
+				c()
+			}})
+		}
+	}
 	seen := map[*node.SConn]bool{}
 	for _, p := range w.preps {
 		if !w.allowClose {
@@ -1330,6 +1525,9 @@ func (w *prepWorld) faultActions() []kernel.Action {
 		sc := p.sc
 		acts = append(acts, kernel.Action{Key: "srvclose:" + sc.C.Name, Rank: 6, Weight: 1, Do: func() {
 			k.Fault("conn.closed-with-prepare-outstanding")
+			w.mu.Lock()
+			w.closes++
+			w.mu.Unlock()
 			w.cl.CloseConn(sc, false)
 		}})
 	}
@@ -1409,7 +1607,7 @@ func (w *prepWorld) finalPhase(sess *gocql.Session, serve func()) {
 			k.Probe("final-op-no-connection")
 			continue
 		}
-		if frames == 0 && prepsDuring == 0 && (cls != "timeout" || f.elapsed < w.timeout/2) {
+		if frames == 0 && prepsDuring == 0 && (cls != "timeout" || f.elapsed < time.Millisecond) {
 			k.Violate("C14", "C14/failed-prepare-cached", "after faults stopped and every call had returned, executing %s again failed after %v with %q although neither a PREPARE nor an EXECUTE for it reached any node (key had %v earlier PREPARE failure(s)): a failed PREPARE is being served from the cache",
 				key.name, f.elapsed, op.err.Error(), hadFailure)
 			return
